@@ -546,9 +546,15 @@ class AsyncParmapper(AsyncIterable):
 
         with executor:
 
+            def result(fut):
+                if fut.exception() is not None:
+                    # `Future.result` tests the exception by its truth value.
+                    raise fut.exception()
+                return fut.result()
+
             async def func(x, *, executor, loop, **kwargs):
                 fut = executor.submit(self._func, x, **kwargs)
-                return loop.run_in_executor(None, fut.result)
+                return loop.run_in_executor(None, result, fut)
 
             loop = asyncio.get_running_loop()
 
